@@ -1,4 +1,5 @@
 import Pcore.Proofs.LatMono
+import Pcore.Proofs.LatEq
 import Pcore.Proofs.LatTransAll
 set_option linter.unusedSimpArgs false
 /-!
@@ -17,9 +18,9 @@ right-hand decomposition of `GuardedIsAssignable` descends into (Data and RichDa
 
 Full statement / proved / missing
 * reflexivity — `C03_refl` PROVED for every well-formed term without Data/RichData inside (all 32 constructors, any nesting).  A
-  separately constructed or re-parsed copy is the same term, so this is "A accepts a copy of A".  `C03_refl_eq_full` (types that are
-  `Equals` but not the same term — permuted Variant/Enum/Pattern members, Tuple size given vs implied — accept each other) is stated as
-  a `def`, NOT yet proved; it is checked on the implementation for every generated pair (class `eq-not-asg-*`).
+  separately constructed or re-parsed copy is the same term, so this is "A accepts a copy of A".  `C03_refl_eq` PROVED: types that are
+  `Equals` (`tyEq`, the mirror of every `Equals` method) accept each other, also when they are not the same term — permuted
+  Variant/Enum/Pattern members, Tuple size given vs implied; also checked on the implementation for every generated pair (`eq-not-asg-*`).
 * laws — `C03_top`, `C03_unit`, `C03_variant`, `C03_optional` PROVED.
 * monotonicity — PROVED for every covariant hole the property lists: `C03_mono_array`, `C03_mono_hash_key`, `C03_mono_hash_value`,
   `C03_mono_tuple` (any slot), `C03_mono_struct` (any member's value type), `C03_mono_variant`, `C03_mono_optional`, `C03_mono_notUndef`,
@@ -43,10 +44,15 @@ namespace Pcore.Lat
 theorem C03_refl (cfg : Cfg) (sfh : Bool) (a : Ty) (hwf : Ty.WF cfg a) (hna : a.NoAlias) : asg cfg sfh a a = true :=
   asg_refl cfg sfh a.w a (Nat.le_refl _) hwf hna
 
-/-- full statement of "equal types accept each other" (not proved beyond `C03_refl`) -/
-def C03_refl_eq_full : Prop :=
-  ∀ (cfg : Cfg) (sfh : Bool) (a b : Ty), Ty.WF cfg a → Ty.WF cfg b → tyEq a b = true →
-    asg cfg sfh a b = true ∧ asg cfg sfh b a = true
+/-- equal types accept each other: `tyEq` mirrors every `Equals` method (Variant / Enum / Pattern as equal length + inclusion both ways,
+    Tuple by the given-or-implied size, Struct member by member), so this covers types that are equal without being the same term -/
+theorem C03_refl_eq (cfg : Cfg) (sfh : Bool) (a b : Ty) (wa : Ty.WF cfg a) (wb : Ty.WF cfg b) (na : a.NoAlias) (nb : b.NoAlias)
+    (h : tyEq a b = true) : asg cfg sfh a b = true ∧ asg cfg sfh b a = true :=
+  eq_asg cfg sfh (a.w + b.w) a b (Nat.le_refl _) wa wb na nb h
+
+/-- non-vacuity: equal but different terms (permuted Variant members, Tuple size given vs implied) -/
+example : tyEq (.variant [.str, .tuple [.int ⟨0, 1⟩] none]) (.variant [.tuple [.int ⟨0, 1⟩] (some ⟨1, 1⟩), .str]) = true := by
+  simp [tyEq, tyEqIncl, tyEqAny, tyEqL, tupleSize, Rng.exact]
 
 theorem C03_top (cfg : Cfg) (sfh : Bool) (b : Ty) : asg cfg sfh .any b = true := asg_any_l cfg sfh b
 theorem C03_unit (cfg : Cfg) (sfh : Bool) (a : Ty) : asg cfg sfh a .unit = true := asg_unit_r cfg sfh a
